@@ -11,7 +11,8 @@ import time
 VERIF = os.path.dirname(os.path.dirname(os.path.abspath(__file__)))
 REPO = os.environ.get("VERIF_REPO", "/repo")
 SPEC = os.path.join(VERIF, "spec")
-RUN = os.path.join(VERIF, "run")
+RUN = os.environ.get("VERIF_RUN", os.path.join(VERIF, "run"))          # scratch; overridable so that mutant runs do not disturb /verif/run
+EVIDENCE = os.environ.get("VERIF_EVIDENCE", os.path.join(VERIF, "evidence"))
 TLA_CP = "/opt/veriftools/tla/tla2tools.jar:/opt/veriftools/tla/CommunityModules-deps.jar"
 NCPU = os.cpu_count() or 8
 
@@ -226,8 +227,8 @@ class Report:
             ev["coverage"]["known_findings_reproduced"] = [k for k, _ in self.known_hits]
         if self.notes:
             ev["coverage"]["notes"] = self.notes
-        os.makedirs(os.path.join(VERIF, "evidence"), exist_ok=True)
-        with open(os.path.join(VERIF, "evidence", f"{self.pid}.json"), "w") as f:
+        os.makedirs(EVIDENCE, exist_ok=True)
+        with open(os.path.join(EVIDENCE, f"{self.pid}.json"), "w") as f:
             json.dump(ev, f, indent=1, sort_keys=True)
             f.write("\n")
         for key, what in self.known_hits:
